@@ -7,7 +7,12 @@
 //! decides when futures are polled and dropped, when the kernel consumes
 //! submissions (inside `Ring::poll`), and what it answers: an errno or fresh
 //! descriptors with script-chosen numbers (real descriptors for the regular
-//! table, slots of the simulated direct table).
+//! table, slots of the simulated direct table). An EINVAL answer ("kernel too
+//! old") is an ordinary error for every operation but `pipe`, whose next poll
+//! calls `pipe2(2)` synchronously (`PipeOp::fallback`): the libc symbol is
+//! trapped (`simk::sync_trap`) for the duration of every op, answered with the
+//! numbers (or the errno) the poll op carries (`fds poll <i> pipe2 <r1>,<r2>` /
+//! `fds poll <i> pipe2-err <errno>`) and backed by real descriptors.
 //!
 //! The oracle is a ledger of every descriptor the kernel handed out, updated
 //! only from what the real code does: the `AsyncFd`s it returns (`kind()` /
@@ -91,6 +96,18 @@ struct OpSlot {
     ud_inflight: Option<u64>,
     /// user_data of its last submission
     ud: Option<u64>,
+    /// the kind asked for with `.kind(..)` (open, socket, pipe)
+    req: Option<K>,
+    /// a live pipe future whose operation finished with -EINVAL: its next poll
+    /// calls `pipe2(2)` and needs the script's answer
+    einval_due: bool,
+}
+
+/// What the trapped `pipe2(2)` answers during a poll.
+#[derive(Clone, Copy)]
+enum Pipe2 {
+    Fds([u32; 2]),
+    Errno(i32),
 }
 
 enum HObj {
@@ -403,15 +420,37 @@ impl FdsCase {
         matches!(r, Ok(Ok(())))
     }
 
+    /// The kernel installs a regular descriptor with the script-chosen number `r`.
+    fn install_file(&self, r: u32) {
+        simk::with_ring(self.rfd, |ring, _| {
+            let fd = ring.fresh_fd();
+            unsafe {
+                simk::raw_syscall(libc::SYS_dup3, fd as i64, r as i64, libc::O_CLOEXEC as i64, 0, 0, 0);
+                simk::raw_syscall(libc::SYS_close, fd as i64, 0, 0, 0, 0, 0);
+            }
+            ring.issued_fds.retain(|f| *f != fd);
+            ring.issued_fds.push(r as i32);
+        });
+    }
+
+    /// `pipe2(2)` calls nobody expected (the trap answered ENOSYS).
+    fn stray_sync_calls(&mut self, during: &str) {
+        for c in simk::sync_drain() {
+            if c.call == "pipe2" {
+                self.fail("C07/pipe-fallback/pipe2-unexpected", format!("pipe2(2) called during `{during}`: no live pipe future was reading an EINVAL completion there (the future was dropped, the operation had another result, or it is not a pipe)"));
+            }
+        }
+    }
+
     fn push_handle(&mut self, obj: HObj, std: bool) -> usize {
         self.handles.push(HSlot { obj: Some(obj), std });
         self.handles.len() - 1
     }
 
     /// Wrap up `AsyncFd`s returned by operation `i`.
-    fn returned(&mut self, i: usize, fds: Vec<AsyncFd>) -> String {
+    fn returned(&mut self, i: usize, fds: Vec<AsyncFd>, via_fallback: bool) -> String {
         let mut parts = Vec::new();
-        let opkind = self.ops[i].kind.clone();
+        let opkind = if via_fallback { "pipe-fallback".to_string() } else { self.ops[i].kind.clone() };
         for fd in fds {
             let dbg = format!("{fd:?}");
             let raw: u32 = dbg
@@ -431,218 +470,144 @@ impl FdsCase {
                 }
                 None => {
                     let delivered: Vec<String> = self.descs.iter().filter(|d| d.st == St::Pending(i)).map(|d| key(d.kind, d.raw)).collect();
-                    self.fail(&format!("C07/wrong-wrap/{opkind}"), format!("op{i} ({opkind}) returned an AsyncFd for {} but the kernel delivered [{}] to it", key(k, raw), delivered.join(",")));
+                    let src = if via_fallback { "pipe2(2) returned" } else { "the kernel delivered" };
+                    self.fail(&format!("C07/wrong-wrap/{opkind}"), format!("op{i} ({opkind}) returned an AsyncFd for {} but {src} [{}] to it", key(k, raw), delivered.join(",")));
                 }
             }
         }
         if opkind != "maccept" {
             let left: Vec<String> = self.descs.iter().filter(|d| d.st == St::Pending(i)).map(|d| key(d.kind, d.raw)).collect();
             if !left.is_empty() {
-                self.fail(&format!("C07/not-wrapped/{opkind}"), format!("op{i} ({opkind}) completed but [{}] delivered to it were not wrapped in an AsyncFd", left.join(",")));
+                self.fail(&format!("C07/not-wrapped/{opkind}"), format!("op{i} ({opkind}) completed but [{}] {} were not wrapped in an AsyncFd", left.join(","), if via_fallback { "returned by pipe2(2)" } else { "delivered to it" }));
             }
         }
         if parts.is_empty() { "ready ok -".into() } else { format!("ready ok {}", parts.join(" ")) }
     }
 
-    fn dump(&mut self) -> Vec<String> {
-        self.descs
-            .iter()
-            .enumerate()
-            .map(|(d, e)| format!("d{d} {} closes={} {}", key(e.kind, e.raw), e.closes, e.st.show()))
-            .collect()
-    }
-
-    /// Quiescence (nothing queued, nothing unprocessed): every descriptor the
-    /// kernel handed out has been closed exactly once or has a live owner.
-    fn check_quiescent(&mut self) {
-        let mut fails: Vec<(String, String)> = Vec::new();
-        for (d, e) in self.descs.iter().enumerate() {
-            let k = key(e.kind, e.raw);
-            // the kernel's own table
-            let later_open = self.descs.iter().skip(d + 1).any(|x| x.kind == e.kind && x.raw == e.raw && x.closes == 0);
-            let really_open = match e.kind {
-                K::File => raw_fcntl_getfd(e.raw as i32) >= 0,
-                K::Direct => simk::with_ring(self.rfd, |r, _| r.files.as_ref().and_then(|f| f.get(e.raw as usize)).is_some_and(|s| s.is_some())),
-            };
-            if e.closes == 0 && !really_open {
-                fails.push(("C07/table-mismatch".into(), format!("d{d} {k} was never closed through a request the kernel saw, but it is not open any more")));
-            }
-            if e.closes >= 1 && really_open && !later_open {
-                fails.push(("C07/table-mismatch".into(), format!("d{d} {k} was closed but the descriptor is still open")));
-            }
-            if e.closes > 1 {
-                fails.push((format!("C07/double-close/{}", e.kind.name()), format!("d{d} {k} closed {} times", e.closes)));
-            }
-            if e.wraps > 1 {
-                fails.push(("C07/wrapped-twice".into(), format!("d{d} {k} wrapped in {} AsyncFds", e.wraps)));
-            }
-            match &e.st {
-                St::Closed | St::Owned(_) | St::Pending(_) | St::CloseFut(_) | St::Forfeited => {}
-                St::Released => fails.push((format!("C07/not-closed/{}", e.kind.name()), format!("d{d} {k}: its AsyncFd is gone, nothing is queued, the kernel never closed it"))),
-                St::Lost => fails.push((
-                    format!("C07/abandoned-fd/{}", e.opkind),
-                    format!("d{d} {k} delivered to an abandoned {} operation ({}) is never wrapped in an AsyncFd and never closed", e.opkind, e.how),
-                )),
-            }
+    /// `Future::poll` / `poll_next` of operation `i`; `fb` = this poll is expected to
+    /// call `pipe2(2)` (a pipe future reading its EINVAL completion), answered with it.
+    fn do_poll(&mut self, i: usize, fb: Option<Pipe2>) -> Vec<String> {
+        let mut out: Vec<String> = Vec::new();
+        let old_tail = self.sq_tail();
+        let waker = util::waker(i as u32);
+        let mut cx = Context::from_waker(&waker);
+        let mut obj = self.ops[i].obj.take().unwrap();
+        // what the trapped pipe2(2) answers during this poll (otherwise: ENOSYS, see `exec`)
+        match fb {
+            Some(Pipe2::Fds(f)) => simk::sync_script(Some(simk::SyncScript { fds: [f[0] as i32, f[1] as i32], ..Default::default() })),
+            Some(Pipe2::Errno(e)) => simk::sync_script(Some(simk::SyncScript { errno: Some(e), ..Default::default() })),
+            None => {}
         }
-        for (sig, what) in fails {
-            self.fail(&sig, what);
-        }
-    }
-
-    /// Regular descriptor numbers / direct slots currently open (oracle view).
-    fn open_raws(&self, k: K) -> Vec<u32> {
-        self.descs.iter().filter(|d| d.kind == k && d.closes == 0).map(|d| d.raw).collect()
-    }
-
-    fn gen_raws(&self, rng: &mut Rng, k: K, n: usize) -> Option<Vec<u32>> {
-        let open = self.open_raws(k);
-        let mut free: Vec<u32> = match k {
-            // a small window so that numbers are reused soon after they are closed
-            K::File => (FLO..FLO + 8).filter(|r| !open.contains(r)).collect(),
-            K::Direct => (self.slo..self.slots).filter(|r| !open.contains(r)).collect(),
-        };
-        let mut v = Vec::new();
-        for _ in 0..n {
-            if free.is_empty() {
-                return None;
+        let r = util::catch(|| obj.poll(&mut cx));
+        self.ops[i].obj = Some(obj);
+        let mut pipe2_line = None;
+        if let Some(fb) = fb {
+            self.ops[i].einval_due = false;
+            let calls: Vec<simk::SyncCall> = simk::sync_drain().into_iter().filter(|c| c.call == "pipe2").collect();
+            simk::sync_script(Some(simk::SyncScript { errno: Some(libc::ENOSYS), ..Default::default() }));
+            let req = self.ops[i].req.unwrap_or(K::File);
+            match calls.len() {
+                0 => self.fail("C07/pipe-fallback/pipe2-not-called", format!("op{i} (pipe, requested kind {}) read its EINVAL completion but did not call pipe2(2)", req.name())),
+                1 => {}
+                n => self.fail("C07/pipe-fallback/pipe2-unexpected", format!("op{i} (pipe) called pipe2(2) {n} times for one EINVAL completion")),
             }
-            let idx = rng.below(free.len() as u64) as usize;
-            v.push(free.remove(idx));
-        }
-        Some(v)
-    }
-}
-
-fn list(v: &[u32]) -> String {
-    v.iter().map(|x| x.to_string()).collect::<Vec<_>>().join(",")
-}
-
-impl Case for FdsCase {
-    fn next_op(&mut self, rng: &mut Rng) -> Option<String> {
-        if self.ended || self.poisoned {
-            return None;
-        }
-        let live_ops: Vec<usize> = (0..self.ops.len()).filter(|i| self.ops[*i].obj.is_some()).collect();
-        let live_h: Vec<usize> = (0..self.handles.len()).filter(|a| self.live_handle(*a)).collect();
-        if self.steps_left == 0 {
-            let cleanup = *self.cleanup.get_or_insert_with(|| rng.chance(3, 4));
-            if cleanup {
-                if let Some(i) = live_ops.first() {
-                    return Some(format!("fds dropop {i}"));
-                }
-                if let Some(a) = live_h.first() {
-                    return Some(format!("fds drop {a}"));
-                }
-            }
-            self.ended = true;
-            return Some("fds end".into());
-        }
-        self.steps_left -= 1;
-        let inflight: Vec<usize> = simk::with_ring(self.rfd, |r, _| {
-            (0..self.ops.len())
-                .filter(|i| self.ops[*i].ud_inflight.is_some_and(|ud| r.inflight.iter().any(|x| x.sqe.user_data == ud)))
-                .collect()
-        });
-        let droppable: Vec<usize> = live_h.iter().copied().filter(|a| !self.borrowed(*a)).collect();
-        let kind_of = |a: usize| self.handles[a].afd().map(|f| K::of(f.kind()));
-        let file_h: Vec<usize> = live_h.iter().copied().filter(|a| kind_of(*a) == Some(K::File)).collect();
-        let direct_h: Vec<usize> = live_h.iter().copied().filter(|a| kind_of(*a) == Some(K::Direct)).collect();
-        let closable: Vec<usize> = droppable.iter().copied().filter(|a| !self.handles[*a].std).collect();
-        let can_new = self.ops.len() < 10;
-        let w_create = if can_new { 5 } else { 0 };
-        let w_accept = if can_new && !live_h.is_empty() { 4 } else { 0 };
-        let w_conv = if can_new && self.slots > 0 && (!file_h.is_empty() || !direct_h.is_empty()) { 2 } else { 0 };
-        let w_close = if can_new && !closable.is_empty() { 3 } else { 0 };
-        let w_poll = if live_ops.is_empty() { 0 } else { 9 };
-        let w_dropop = if live_ops.is_empty() { 0 } else { 2 };
-        let w_kpost = if inflight.is_empty() { 0 } else { 9 };
-        let w_rpoll = 5;
-        let w_droph = if droppable.is_empty() { 0 } else { 4 };
-        let w_std = if self.handles.iter().filter(|h| h.std).count() < 2 { 1 } else { 0 };
-        let w_bad = if rng.chance(1, 20) { 2 } else { 0 };
-        let n = self.ops.len();
-        let pick_kind = |rng: &mut Rng, slots: u32| if slots > 0 && rng.chance(1, 2) { "direct" } else { "file" };
-        match rng.weighted(&[w_create, w_accept, w_conv, w_close, w_poll, w_dropop, w_kpost, w_rpoll, w_droph, w_std, w_bad]) {
-            0 => {
-                let kind = *rng.pick(&["open", "socket", "pipe"]);
-                Some(format!("fds new {n} {kind} {}", pick_kind(rng, self.slots)))
-            }
-            1 => {
-                // mostly real descriptors as listeners, sometimes a standard stream
-                let non_std: Vec<usize> = live_h.iter().copied().filter(|a| !self.handles[*a].std).collect();
-                let a = if !non_std.is_empty() && rng.chance(9, 10) { *rng.pick(&non_std) } else { *rng.pick(&live_h) };
-                let kind = if rng.chance(1, 2) { "accept" } else { "maccept" };
-                Some(format!("fds new {n} {kind} {a}"))
-            }
-            2 => {
-                if !file_h.is_empty() && (direct_h.is_empty() || rng.chance(1, 2)) {
-                    Some(format!("fds new {n} todirect {}", rng.pick(&file_h)))
-                } else {
-                    Some(format!("fds new {n} tofd {}", rng.pick(&direct_h)))
-                }
-            }
-            3 => Some(format!("fds new {n} close {}", rng.pick(&closable))),
-            4 => Some(format!("fds poll {}", rng.pick(&live_ops))),
-            5 => {
-                // prefer abandoning operations whose submission is in flight
-                let i = if !inflight.is_empty() && rng.chance(2, 3) {
-                    let c: Vec<usize> = inflight.iter().copied().filter(|i| live_ops.contains(i)).collect();
-                    if c.is_empty() { *rng.pick(&live_ops) } else { *rng.pick(&c) }
-                } else {
-                    *rng.pick(&live_ops)
-                };
-                Some(format!("fds dropop {i}"))
-            }
-            6 => {
-                let i = *rng.pick(&inflight);
-                let multi = self.ops[i].kind == "maccept";
-                let more = if multi && rng.chance(3, 4) { 1 } else { 0 };
-                let sqe = self.ops[i].ud_inflight.and_then(|ud| simk::with_ring(self.rfd, |r, _| r.inflight.iter().find(|x| x.sqe.user_data == ud).map(|x| x.sqe)));
-                let k = sqe.map(|s| issue_kind(&s)).unwrap_or(K::File);
-                let arity = if self.ops[i].kind == "pipe" { 2 } else { 1 };
-                if rng.chance(3, 4) {
-                    if let Some(raws) = self.gen_raws(rng, k, arity) {
-                        return Some(format!("fds kpost {i} ok {} {more}", list(&raws)));
+            if let Some(c) = calls.first() {
+                match fb {
+                    Pipe2::Fds(f) if c.ret == 0 => {
+                        // the descriptors pipe2 returned exist from now on: REGULAR ones
+                        for r in f {
+                            self.install_file(r);
+                            if self.descs.iter().any(|d| d.kind == K::File && d.raw == r) {
+                                self.feats.push("number-reused".into());
+                            }
+                            self.descs.push(DescRec {
+                                kind: K::File,
+                                raw: r,
+                                closes: 0,
+                                st: St::Pending(i),
+                                wraps: 0,
+                                opkind: "pipe-fallback".into(),
+                                how: "pipe2(2) returned it in the fallback of pipe but the future resolved without wrapping it",
+                            });
+                        }
+                        pipe2_line = Some(format!("pipe2 {}", list(&f)));
+                        self.feats.push("pipe-fallback-run".into());
+                        self.feats.push(format!("pipe-fallback-run/requested-{}", req.name()));
+                    }
+                    _ => {
+                        pipe2_line = Some(format!("pipe2 err {}", -c.ret));
+                        self.feats.push("pipe-fallback-pipe2-failed".into());
                     }
                 }
-                let e = *rng.pick(&[libc::EINTR, libc::ECANCELED, libc::ECANCELED, libc::EIO, libc::EAGAIN, libc::EMFILE, libc::ENFILE]);
-                Some(format!("fds kpost {i} err {e} 0"))
-            }
-            7 => Some("fds rpoll".into()),
-            8 => Some(format!("fds drop {}", rng.pick(&droppable))),
-            9 => Some(format!("fds std {} {}", self.handles.len(), rng.below(3))),
-            _ => {
-                // malformed stream
-                let i = rng.below(self.ops.len() as u64 + 2);
-                let a = rng.below(self.handles.len() as u64 + 2);
-                Some(match rng.below(14) {
-                    0 => format!("fds poll {i}"),
-                    1 => format!("fds dropop {i}"),
-                    2 => format!("fds drop {a}"),
-                    3 => format!("fds kpost {i} ok {} 0", FLO + rng.below(12) as u32),
-                    4 => format!("fds kpost {i} ok {} 1", SLO + rng.below(4) as u32),
-                    5 => format!("fds kpost {i} err {} {}", *rng.pick(&[0u32, 22, 4096, 5]), rng.below(2)),
-                    6 => format!("fds kpost {i} ok {},{} 0", FLO + rng.below(3) as u32, FLO + rng.below(3) as u32),
-                    7 => format!("fds kpost {i} ok {} 0", *rng.pick(&[0u32, 2, 39, 48, 199, 456, 2147483648, 4294967295])),
-                    8 => format!("fds new {} open file", n + 1),
-                    9 => format!("fds new {n} {} {a}", *rng.pick(&["todirect", "tofd", "close", "accept"])),
-                    10 => format!("fds std {} {}", self.handles.len(), 3 + rng.below(3)),
-                    11 => format!("fds new {n} socket {}", *rng.pick(&["fixed", "-", "Direct"])),
-                    12 => "fds kpost x ok 200 0".into(),
-                    _ => "fds frobnicate".into(),
-                })
             }
         }
+        match r {
+            Err(_) => out.push("panic".into()),
+            Ok(Polled::Pending) => out.push("pending".into()),
+            Ok(Polled::Fds(v)) => {
+                let line = self.returned(i, v, fb.is_some());
+                out.push(line);
+            }
+            Ok(Polled::Err(e)) => out.push(format!("ready err {e}")),
+            Ok(Polled::None) => out.push("ready none".into()),
+        }
+        if fb.is_some() {
+            // whatever the poll returned: nothing pipe2 created may be left unwrapped
+            let left: Vec<String> = self.descs.iter().filter(|d| d.st == St::Pending(i)).map(|d| key(d.kind, d.raw)).collect();
+            if !left.is_empty() && !out[0].starts_with("ready ok") {
+                self.fail("C07/not-wrapped/pipe-fallback", format!("op{i} (pipe): pipe2(2) returned [{}] but the future resolved with `{}`: the descriptors are owned by no AsyncFd and are never closed", left.join(","), out[0]));
+            }
+            for d in self.descs.iter_mut() {
+                if d.st == St::Pending(i) {
+                    d.st = St::Lost;
+                }
+            }
+            out.extend(pipe2_line);
+        }
+        let pend_before = simk::with_ring(self.rfd, |r, _| r.sq_pending());
+        let sqes = self.sqes_since(old_tail);
+        if sqes.is_empty() && pend_before >= self.sq_len && out[0] == "pending" {
+            self.feats.push("queue-full-poll".into());
+        }
+        for sqe in sqes {
+            if sqe.user_data <= 3 {
+                out.push(format!("sqe ? {} ud={}", simk::opcode_name(sqe.opcode), sqe.user_data));
+                continue;
+            }
+            self.ops[i].ud = Some(sqe.user_data);
+            if sqe.opcode != simk::OP_CLOSE {
+                self.ops[i].ud_inflight = Some(sqe.user_data);
+            }
+            if sqe.opcode == simk::OP_CLOSE {
+                let (k, raw) = close_target(&sqe);
+                out.push(format!("sqe op{i} CLOSE {}", key(k, raw)));
+                let mut hit = false;
+                for d in self.descs.iter_mut() {
+                    if d.st == St::CloseFut(i) {
+                        d.st = St::Released;
+                        hit = d.kind == k && d.raw == raw && d.closes == 0;
+                    }
+                }
+                if !hit {
+                    self.fail("C07/close-encoding", format!("Close future op{i} asks the kernel to close {} which is not the descriptor of the AsyncFd it consumed", key(k, raw)));
+                }
+            } else {
+                let alloc = match sqe.opcode {
+                    simk::OP_FILES_UPDATE => sqe.off as u32 == u32::MAX,
+                    simk::OP_FIXED_FD_INSTALL => false,
+                    _ => sqe.file_index == u32::MAX,
+                };
+                let fixed = sqe.flags & simk::IOSQE_FIXED_FILE != 0;
+                out.push(format!("sqe op{i} {} alloc={} fixed={}", simk::opcode_name(sqe.opcode), alloc as u8, fixed as u8));
+            }
+        }
+        out
     }
 
-    fn exec(&mut self, op: &str) -> Vec<String> {
+    fn exec_inner(&mut self, op: &str) -> Vec<String> {
         let t: Vec<&str> = op.split(' ').collect();
         let mut out: Vec<String> = Vec::new();
         let bad = || vec!["bad-op".to_string()];
-        if self.poisoned {
-            return vec!["unsafe-state".into()];
-        }
         match t.as_slice() {
             ["fds", "std", a, w] => {
                 let (Ok(a), Ok(w)) = (a.parse::<usize>(), w.parse::<u32>()) else { return bad() };
@@ -666,6 +631,7 @@ impl Case for FdsCase {
                 }
                 let sq = self.sq.clone().unwrap();
                 let mut on = None;
+                let mut req = None;
                 let obj: Box<dyn Pollable> = match *kind {
                     "open" | "socket" | "pipe" => {
                         let k = match *arg {
@@ -673,6 +639,7 @@ impl Case for FdsCase {
                             "direct" => Kind::Direct,
                             _ => return bad(),
                         };
+                        req = Some(K::of(k));
                         match *kind {
                             "open" => {
                                 let fut = a10::fs::OpenOptions::new().kind(k).open(sq, "/dev/null".into());
@@ -723,7 +690,7 @@ impl Case for FdsCase {
                     }
                     _ => return bad(),
                 };
-                self.ops.push(OpSlot { kind: kind.to_string(), obj: Some(obj), on, ud_inflight: None, ud: None });
+                self.ops.push(OpSlot { kind: kind.to_string(), obj: Some(obj), on, ud_inflight: None, ud: None, req, einval_due: false });
                 out.push("ok".into());
             }
             ["fds", "poll", i] => {
@@ -731,59 +698,51 @@ impl Case for FdsCase {
                 if i >= self.ops.len() || self.ops[i].obj.is_none() {
                     return bad();
                 }
-                let old_tail = self.sq_tail();
-                let waker = util::waker(i as u32);
-                let mut cx = Context::from_waker(&waker);
-                let mut obj = self.ops[i].obj.take().unwrap();
-                let r = util::catch(|| obj.poll(&mut cx));
-                self.ops[i].obj = Some(obj);
-                match r {
-                    Err(_) => out.push("panic".into()),
-                    Ok(Polled::Pending) => out.push("pending".into()),
-                    Ok(Polled::Fds(v)) => {
-                        let line = self.returned(i, v);
-                        out.push(line);
-                    }
-                    Ok(Polled::Err(e)) => out.push(format!("ready err {e}")),
-                    Ok(Polled::None) => out.push("ready none".into()),
+                if self.ops[i].einval_due {
+                    // this poll calls pipe2(2): the script has to say what it answers
+                    return bad();
                 }
-                let pend_before = simk::with_ring(self.rfd, |r, _| r.sq_pending());
-                let sqes = self.sqes_since(old_tail);
-                if sqes.is_empty() && pend_before >= self.sq_len && out[0] == "pending" {
-                    self.feats.push("queue-full-poll".into());
-                }
-                for sqe in sqes {
-                    if sqe.user_data <= 3 {
-                        out.push(format!("sqe ? {} ud={}", simk::opcode_name(sqe.opcode), sqe.user_data));
-                        continue;
-                    }
-                    self.ops[i].ud = Some(sqe.user_data);
-                    if sqe.opcode != simk::OP_CLOSE {
-                        self.ops[i].ud_inflight = Some(sqe.user_data);
-                    }
-                    if sqe.opcode == simk::OP_CLOSE {
-                        let (k, raw) = close_target(&sqe);
-                        out.push(format!("sqe op{i} CLOSE {}", key(k, raw)));
-                        let mut hit = false;
-                        for d in self.descs.iter_mut() {
-                            if d.st == St::CloseFut(i) {
-                                d.st = St::Released;
-                                hit = d.kind == k && d.raw == raw && d.closes == 0;
-                            }
+                out = self.do_poll(i, None);
+            }
+            ["fds", "poll", i, what @ ("pipe2" | "pipe2-err"), arg] => {
+                let Ok(i) = i.parse::<usize>() else { return bad() };
+                // parse the payload first (a malformed line is bad-op on both sides)
+                let mut raws: Vec<u64> = Vec::new();
+                let mut errno = 0u64;
+                if *what == "pipe2" {
+                    if !(arg.is_empty() || *arg == "-") {
+                        for p in arg.split(',') {
+                            let Ok(x) = p.parse::<u64>() else { return bad() };
+                            raws.push(x);
                         }
-                        if !hit {
-                            self.fail("C07/close-encoding", format!("Close future op{i} asks the kernel to close {} which is not the descriptor of the AsyncFd it consumed", key(k, raw)));
-                        }
-                    } else {
-                        let alloc = match sqe.opcode {
-                            simk::OP_FILES_UPDATE => sqe.off as u32 == u32::MAX,
-                            simk::OP_FIXED_FD_INSTALL => false,
-                            _ => sqe.file_index == u32::MAX,
-                        };
-                        let fixed = sqe.flags & simk::IOSQE_FIXED_FILE != 0;
-                        out.push(format!("sqe op{i} {} alloc={} fixed={}", simk::opcode_name(sqe.opcode), alloc as u8, fixed as u8));
                     }
+                } else {
+                    let Ok(e) = arg.parse::<u64>() else { return bad() };
+                    errno = e;
                 }
+                if i >= self.ops.len() || self.ops[i].obj.is_none() || !self.ops[i].einval_due {
+                    return bad();
+                }
+                let fb = if *what == "pipe2-err" {
+                    if errno == 0 || errno >= 4096 {
+                        return bad();
+                    }
+                    Pipe2::Errno(errno as i32)
+                } else {
+                    if raws.len() != 2 {
+                        return bad();
+                    }
+                    // KC8 at the moment of the call: not open, in range, distinct
+                    let mut ok = raws[0] != raws[1];
+                    for r in &raws {
+                        ok &= *r < 2147483648 && *r >= FLO as u64 && *r < FHI as u64 && raw_fcntl_getfd(*r as i32) < 0;
+                    }
+                    if !ok {
+                        return vec!["bad-raw".into()];
+                    }
+                    Pipe2::Fds([raws[0] as u32, raws[1] as u32])
+                };
+                out = self.do_poll(i, Some(fb));
             }
             ["fds", "dropop", i] => {
                 let Ok(i) = i.parse::<usize>() else { return bad() };
@@ -792,6 +751,11 @@ impl Case for FdsCase {
                 }
                 let old_tail = self.sq_tail();
                 let obj = self.ops[i].obj.take();
+                if self.ops[i].einval_due {
+                    // dropped before the poll that would have called pipe2(2): nothing is created
+                    self.ops[i].einval_due = false;
+                    self.feats.push("pipe-fallback-skipped-dropped".into());
+                }
                 let _ = util::catch(move || drop(obj));
                 let sqes = self.sqes_since(old_tail);
                 let mut cancelled = false;
@@ -932,7 +896,7 @@ impl Case for FdsCase {
                 }
                 let flags = if more { CQE_F_MORE } else { 0 };
                 if *what == "err" {
-                    if errno == 0 || errno == 22 || errno >= 4096 || more {
+                    if errno == 0 || errno >= 4096 || more {
                         return bad();
                     }
                     let spec = PostSpec::new(Target::UserData(ud), -(errno as i32), flags);
@@ -943,6 +907,19 @@ impl Case for FdsCase {
                     let ok = self.process_cq();
                     if errno as i32 == libc::EINTR || errno as i32 == libc::ECANCELED {
                         self.feats.push("restartable-error".into());
+                    }
+                    if errno as i32 == libc::EINVAL {
+                        // "kernel too old": an error like any other, except that the next poll of
+                        // a live pipe future calls pipe2(2)
+                        let live = self.ops[i].obj.is_some();
+                        let what = match self.ops[i].req {
+                            Some(k) if opkind == "pipe" => format!("pipe-{}", k.name()),
+                            _ => opkind.clone(),
+                        };
+                        self.feats.push(format!("einval/{what}{}", if live { "" } else { "/abandoned" }));
+                        if opkind == "pipe" && live && ok {
+                            self.ops[i].einval_due = true;
+                        }
                     }
                     out.push(if ok { "posted err".into() } else { "panic".into() });
                 } else {
@@ -1047,6 +1024,250 @@ impl Case for FdsCase {
         out
     }
 
+    fn dump(&mut self) -> Vec<String> {
+        self.descs
+            .iter()
+            .enumerate()
+            .map(|(d, e)| format!("d{d} {} closes={} {}", key(e.kind, e.raw), e.closes, e.st.show()))
+            .collect()
+    }
+
+    /// Quiescence (nothing queued, nothing unprocessed): every descriptor the
+    /// kernel handed out has been closed exactly once or has a live owner.
+    fn check_quiescent(&mut self) {
+        let mut fails: Vec<(String, String)> = Vec::new();
+        for (d, e) in self.descs.iter().enumerate() {
+            let k = key(e.kind, e.raw);
+            // the kernel's own table
+            let later_open = self.descs.iter().skip(d + 1).any(|x| x.kind == e.kind && x.raw == e.raw && x.closes == 0);
+            let really_open = match e.kind {
+                K::File => raw_fcntl_getfd(e.raw as i32) >= 0,
+                K::Direct => simk::with_ring(self.rfd, |r, _| r.files.as_ref().and_then(|f| f.get(e.raw as usize)).is_some_and(|s| s.is_some())),
+            };
+            if e.closes == 0 && !really_open {
+                fails.push(("C07/table-mismatch".into(), format!("d{d} {k} was never closed through a request the kernel saw, but it is not open any more")));
+            }
+            if e.closes >= 1 && really_open && !later_open {
+                fails.push(("C07/table-mismatch".into(), format!("d{d} {k} was closed but the descriptor is still open")));
+            }
+            if e.closes > 1 {
+                fails.push((format!("C07/double-close/{}", e.kind.name()), format!("d{d} {k} closed {} times", e.closes)));
+            }
+            if e.wraps > 1 {
+                fails.push(("C07/wrapped-twice".into(), format!("d{d} {k} wrapped in {} AsyncFds", e.wraps)));
+            }
+            match &e.st {
+                St::Closed | St::Owned(_) | St::Pending(_) | St::CloseFut(_) | St::Forfeited => {}
+                St::Released => fails.push((format!("C07/not-closed/{}", e.kind.name()), format!("d{d} {k}: its AsyncFd is gone, nothing is queued, the kernel never closed it"))),
+                St::Lost if e.opkind == "pipe-fallback" => fails.push((
+                    "C07/never-closed/pipe-fallback".into(),
+                    format!("d{d} {k}: {}; it is owned by no AsyncFd and is never closed", e.how),
+                )),
+                St::Lost => fails.push((
+                    format!("C07/abandoned-fd/{}", e.opkind),
+                    format!("d{d} {k} delivered to an abandoned {} operation ({}) is never wrapped in an AsyncFd and never closed", e.opkind, e.how),
+                )),
+            }
+        }
+        for (sig, what) in fails {
+            self.fail(&sig, what);
+        }
+    }
+
+    /// Regular descriptor numbers / direct slots currently open (oracle view).
+    fn open_raws(&self, k: K) -> Vec<u32> {
+        self.descs.iter().filter(|d| d.kind == k && d.closes == 0).map(|d| d.raw).collect()
+    }
+
+    fn gen_raws(&self, rng: &mut Rng, k: K, n: usize) -> Option<Vec<u32>> {
+        let open = self.open_raws(k);
+        let mut free: Vec<u32> = match k {
+            // a small window so that numbers are reused soon after they are closed
+            K::File => (FLO..FLO + 8).filter(|r| !open.contains(r)).collect(),
+            K::Direct => (self.slo..self.slots).filter(|r| !open.contains(r)).collect(),
+        };
+        let mut v = Vec::new();
+        for _ in 0..n {
+            if free.is_empty() {
+                return None;
+            }
+            let idx = rng.below(free.len() as u64) as usize;
+            v.push(free.remove(idx));
+        }
+        Some(v)
+    }
+}
+
+impl FdsCase {
+    fn gen_pipe2_poll(&self, rng: &mut Rng, i: usize) -> String {
+        if rng.chance(1, 7) {
+            return format!("fds poll {i} pipe2-err {}", *rng.pick(&[libc::EMFILE, libc::ENFILE, libc::ENOMEM]));
+        }
+        match self.gen_raws(rng, K::File, 2) {
+            Some(raws) => format!("fds poll {i} pipe2 {}", list(&raws)),
+            None => format!("fds poll {i} pipe2-err {}", libc::EMFILE),
+        }
+    }
+}
+
+fn list(v: &[u32]) -> String {
+    v.iter().map(|x| x.to_string()).collect::<Vec<_>>().join(",")
+}
+
+impl Case for FdsCase {
+    fn next_op(&mut self, rng: &mut Rng) -> Option<String> {
+        if self.ended || self.poisoned {
+            return None;
+        }
+        let live_ops: Vec<usize> = (0..self.ops.len()).filter(|i| self.ops[*i].obj.is_some()).collect();
+        let live_h: Vec<usize> = (0..self.handles.len()).filter(|a| self.live_handle(*a)).collect();
+        if self.steps_left == 0 {
+            let cleanup = *self.cleanup.get_or_insert_with(|| rng.chance(3, 4));
+            if cleanup {
+                if let Some(i) = live_ops.first() {
+                    return Some(format!("fds dropop {i}"));
+                }
+                if let Some(a) = live_h.first() {
+                    return Some(format!("fds drop {a}"));
+                }
+            }
+            self.ended = true;
+            return Some("fds end".into());
+        }
+        self.steps_left -= 1;
+        // an EINVAL completion of a live pipe future is usually followed at once by the poll
+        // that calls pipe2(2) (two fresh regular numbers, sometimes an errno) or by its drop
+        let due: Vec<usize> = live_ops.iter().copied().filter(|i| self.ops[*i].einval_due).collect();
+        if !due.is_empty() && rng.chance(2, 3) {
+            let i = *rng.pick(&due);
+            if rng.chance(1, 6) {
+                return Some(format!("fds dropop {i}"));
+            }
+            return Some(self.gen_pipe2_poll(rng, i));
+        }
+        let inflight: Vec<usize> = simk::with_ring(self.rfd, |r, _| {
+            (0..self.ops.len())
+                .filter(|i| self.ops[*i].ud_inflight.is_some_and(|ud| r.inflight.iter().any(|x| x.sqe.user_data == ud)))
+                .collect()
+        });
+        let droppable: Vec<usize> = live_h.iter().copied().filter(|a| !self.borrowed(*a)).collect();
+        let kind_of = |a: usize| self.handles[a].afd().map(|f| K::of(f.kind()));
+        let file_h: Vec<usize> = live_h.iter().copied().filter(|a| kind_of(*a) == Some(K::File)).collect();
+        let direct_h: Vec<usize> = live_h.iter().copied().filter(|a| kind_of(*a) == Some(K::Direct)).collect();
+        let closable: Vec<usize> = droppable.iter().copied().filter(|a| !self.handles[*a].std).collect();
+        let can_new = self.ops.len() < 10;
+        let w_create = if can_new { 5 } else { 0 };
+        let w_accept = if can_new && !live_h.is_empty() { 4 } else { 0 };
+        let w_conv = if can_new && self.slots > 0 && (!file_h.is_empty() || !direct_h.is_empty()) { 2 } else { 0 };
+        let w_close = if can_new && !closable.is_empty() { 3 } else { 0 };
+        let w_poll = if live_ops.is_empty() { 0 } else { 9 };
+        let w_dropop = if live_ops.is_empty() { 0 } else { 2 };
+        let w_kpost = if inflight.is_empty() { 0 } else { 9 };
+        let w_rpoll = 5;
+        let w_droph = if droppable.is_empty() { 0 } else { 4 };
+        let w_std = if self.handles.iter().filter(|h| h.std).count() < 2 { 1 } else { 0 };
+        let w_bad = if rng.chance(1, 20) { 2 } else { 0 };
+        let n = self.ops.len();
+        let pick_kind = |rng: &mut Rng, slots: u32| if slots > 0 && rng.chance(1, 2) { "direct" } else { "file" };
+        match rng.weighted(&[w_create, w_accept, w_conv, w_close, w_poll, w_dropop, w_kpost, w_rpoll, w_droph, w_std, w_bad]) {
+            0 => {
+                let kind = *rng.pick(&["open", "socket", "pipe"]);
+                Some(format!("fds new {n} {kind} {}", pick_kind(rng, self.slots)))
+            }
+            1 => {
+                // mostly real descriptors as listeners, sometimes a standard stream
+                let non_std: Vec<usize> = live_h.iter().copied().filter(|a| !self.handles[*a].std).collect();
+                let a = if !non_std.is_empty() && rng.chance(9, 10) { *rng.pick(&non_std) } else { *rng.pick(&live_h) };
+                let kind = if rng.chance(1, 2) { "accept" } else { "maccept" };
+                Some(format!("fds new {n} {kind} {a}"))
+            }
+            2 => {
+                if !file_h.is_empty() && (direct_h.is_empty() || rng.chance(1, 2)) {
+                    Some(format!("fds new {n} todirect {}", rng.pick(&file_h)))
+                } else {
+                    Some(format!("fds new {n} tofd {}", rng.pick(&direct_h)))
+                }
+            }
+            3 => Some(format!("fds new {n} close {}", rng.pick(&closable))),
+            4 => {
+                let i = *rng.pick(&live_ops);
+                if self.ops[i].einval_due { Some(self.gen_pipe2_poll(rng, i)) } else { Some(format!("fds poll {i}")) }
+            }
+            5 => {
+                // prefer abandoning operations whose submission is in flight
+                let i = if !inflight.is_empty() && rng.chance(2, 3) {
+                    let c: Vec<usize> = inflight.iter().copied().filter(|i| live_ops.contains(i)).collect();
+                    if c.is_empty() { *rng.pick(&live_ops) } else { *rng.pick(&c) }
+                } else {
+                    *rng.pick(&live_ops)
+                };
+                Some(format!("fds dropop {i}"))
+            }
+            6 => {
+                let i = *rng.pick(&inflight);
+                let multi = self.ops[i].kind == "maccept";
+                let more = if multi && rng.chance(3, 4) { 1 } else { 0 };
+                let sqe = self.ops[i].ud_inflight.and_then(|ud| simk::with_ring(self.rfd, |r, _| r.inflight.iter().find(|x| x.sqe.user_data == ud).map(|x| x.sqe)));
+                let k = sqe.map(|s| issue_kind(&s)).unwrap_or(K::File);
+                let arity = if self.ops[i].kind == "pipe" { 2 } else { 1 };
+                // EINVAL ("kernel too old") with its own weight: often for pipe (either
+                // requested kind), occasionally for the other kinds
+                let p_einval = if self.ops[i].kind == "pipe" { 4 } else { 20 };
+                if rng.chance(1, p_einval) {
+                    return Some(format!("fds kpost {i} err {} 0", libc::EINVAL));
+                }
+                if rng.chance(3, 4) {
+                    if let Some(raws) = self.gen_raws(rng, k, arity) {
+                        return Some(format!("fds kpost {i} ok {} {more}", list(&raws)));
+                    }
+                }
+                let e = *rng.pick(&[libc::EINTR, libc::ECANCELED, libc::ECANCELED, libc::EIO, libc::EAGAIN, libc::EMFILE, libc::ENFILE]);
+                Some(format!("fds kpost {i} err {e} 0"))
+            }
+            7 => Some("fds rpoll".into()),
+            8 => Some(format!("fds drop {}", rng.pick(&droppable))),
+            9 => Some(format!("fds std {} {}", self.handles.len(), rng.below(3))),
+            _ => {
+                // malformed stream
+                let i = rng.below(self.ops.len() as u64 + 2);
+                let a = rng.below(self.handles.len() as u64 + 2);
+                Some(match rng.below(17) {
+                    14 => format!("fds poll {i} pipe2 {},{}", FLO + rng.below(10) as u32, FLO + rng.below(10) as u32),
+                    15 => format!("fds poll {i} pipe2-err {}", *rng.pick(&[0u32, 24, 4096])),
+                    16 => format!("fds poll {i} pipe2 {}", *rng.pick(&["-", "200", "200,201,202", "x,201", "2,3", "456,457"])),
+                    0 => format!("fds poll {i}"),
+                    1 => format!("fds dropop {i}"),
+                    2 => format!("fds drop {a}"),
+                    3 => format!("fds kpost {i} ok {} 0", FLO + rng.below(12) as u32),
+                    4 => format!("fds kpost {i} ok {} 1", SLO + rng.below(4) as u32),
+                    5 => format!("fds kpost {i} err {} {}", *rng.pick(&[0u32, 22, 4096, 5]), rng.below(2)),
+                    6 => format!("fds kpost {i} ok {},{} 0", FLO + rng.below(3) as u32, FLO + rng.below(3) as u32),
+                    7 => format!("fds kpost {i} ok {} 0", *rng.pick(&[0u32, 2, 39, 48, 199, 456, 2147483648, 4294967295])),
+                    8 => format!("fds new {} open file", n + 1),
+                    9 => format!("fds new {n} {} {a}", *rng.pick(&["todirect", "tofd", "close", "accept"])),
+                    10 => format!("fds std {} {}", self.handles.len(), 3 + rng.below(3)),
+                    11 => format!("fds new {n} socket {}", *rng.pick(&["fixed", "-", "Direct"])),
+                    12 => "fds kpost x ok 200 0".into(),
+                    _ => "fds frobnicate".into(),
+                })
+            }
+        }
+    }
+
+    fn exec(&mut self, op: &str) -> Vec<String> {
+        if self.poisoned {
+            return vec!["unsafe-state".into()];
+        }
+        // pipe2(2) is trapped for the duration of every op: outside the poll that is
+        // expected to call it, it fails with ENOSYS and is reported.
+        simk::sync_trap(true);
+        simk::sync_script(Some(simk::SyncScript { errno: Some(libc::ENOSYS), ..Default::default() }));
+        let out = self.exec_inner(op);
+        self.stray_sync_calls(op);
+        simk::sync_trap(false);
+        out
+    }
+
     fn drain_oracle(&mut self) -> Vec<(String, String, String)> {
         std::mem::take(&mut self.oracle)
     }
@@ -1081,11 +1302,15 @@ impl Case for FdsCase {
             let features = std::mem::take(&mut self.feats);
             return CaseReport { oracle: std::mem::take(&mut self.oracle), features, nontrivial: true };
         }
+        simk::sync_trap(true);
+        simk::sync_script(Some(simk::SyncScript { errno: Some(libc::ENOSYS), ..Default::default() }));
         for o in self.ops.iter_mut() {
             if let Some(obj) = o.obj.take() {
                 let _ = util::catch(move || drop(obj));
             }
         }
+        self.stray_sync_calls("end of the case (remaining futures dropped)");
+        simk::sync_trap(false);
         for h in self.handles.iter_mut() {
             if let Some(obj) = h.obj.take() {
                 let _ = util::catch(move || unsafe {
@@ -1118,7 +1343,7 @@ impl Case for FdsCase {
         features.sort();
         features.dedup();
         let nontrivial = features.iter().any(|f| {
-            matches!(f.as_str(), "queue-full-fallback" | "direct-descriptor" | "abandoned-late-result" | "abandoned-with-unread-result")
+            matches!(f.as_str(), "queue-full-fallback" | "direct-descriptor" | "abandoned-late-result" | "abandoned-with-unread-result" | "pipe-fallback-run")
         });
         CaseReport { oracle: std::mem::take(&mut self.oracle), features, nontrivial }
     }
@@ -1144,7 +1369,7 @@ impl Comp for FdsComp {
         "fds"
     }
     fn rule(&self) -> String {
-        "each case = a random script of ≤ 60 ops on a ring with sq ∈ {1,2,4} and a direct table handing out {0,2,4,8} slots (numbers 40..): descriptor-creating operations (open, socket, pipe with file/direct kind; accept and multishot accept on regular, direct and standard-stream listeners; to_direct_descriptor, to_file_descriptor), AsyncFd::close, stdin/stdout/stderr, poll / drop of futures, drop of AsyncFds (CLOSE submission or the queue-full fallback), kernel answers with script-chosen fresh descriptor numbers (8 regular numbers, so numbers are reused) or errnos (incl. EINTR/ECANCELED restarts, F_MORE), Ring::poll, and in 3 of 4 cases a final clean-up that drops everything before the quiescence check; plus a malformed stream (unknown indices, non-fresh / out-of-range numbers, wrong arity, F_MORE on single-shot, illegal conversions, junk). non-trivial = the case closes through the queue-full fallback, uses a direct descriptor, or delivers a descriptor to an abandoned operation; distinct = distinct op scripts".into()
+        "each case = a random script of ≤ 60 ops on a ring with sq ∈ {1,2,4} and a direct table handing out {0,2,4,8} slots (numbers 40..): descriptor-creating operations (open, socket, pipe with file/direct kind; accept and multishot accept on regular, direct and standard-stream listeners; to_direct_descriptor, to_file_descriptor), AsyncFd::close, stdin/stdout/stderr, poll / drop of futures, drop of AsyncFds (CLOSE submission or the queue-full fallback), kernel answers with script-chosen fresh descriptor numbers (8 regular numbers, so numbers are reused) or errnos (incl. EINTR/ECANCELED restarts, F_MORE; EINVAL = kernel too old with its own weight: 1 in 4 answers to a pipe of either requested kind, 1 in 20 to the other kinds, to live and to abandoned futures; a live pipe future that got it is then — 2 times in 3 at once — polled with the trapped pipe2(2) answering two fresh regular numbers backed by real descriptors (6 in 7) or EMFILE/ENFILE/ENOMEM, or dropped (1 in 6)), Ring::poll, and in 3 of 4 cases a final clean-up that drops everything before the quiescence check; plus a malformed stream (unknown indices, non-fresh / out-of-range numbers, wrong arity, F_MORE on single-shot, illegal conversions, pipe2 answers for futures that do not call it / plain polls of futures that do, junk). non-trivial = the case closes through the queue-full fallback, uses a direct descriptor, delivers a descriptor to an abandoned operation, or runs the pipe2 fallback; distinct = distinct op scripts".into()
     }
     fn gen_header(&mut self, rng: &mut Rng, id: u64, _tier: &str) -> String {
         let sq = *rng.pick(&[1u32, 2, 2, 4]);
